@@ -10,7 +10,7 @@ below), `strconv.Atoi` (modelled as `digitsToNat` plus the 2^63 guard).
 -/
 import Apko.Model.Version
 import Apko.Proofs.Lemmas.VersionRender
-import Apko.Proofs.Lemmas.VersionConstraint
+import Apko.Proofs.Lemmas.VersionConstraintIff
 
 namespace Apko.C03
 open Apko
@@ -568,6 +568,40 @@ theorem satisfiedBy_follows (parse : Text → Option Version) (c : Constraint) (
   cases hcv : c.version with
   | nil => exact absurd hcv hne
   | cons a as => rw [hcv] at hp; simp [hp, satisfies_is_spec]
+
+/-- the constraint expression as a relation: `PkgMatch s n o v p` = "the anchored
+`packageNameRegex` matches `s` with submatches name `n`, operator run `o`, version `v`, pin `p`"
+(all matches, any split of operator run / version).  The model returns exactly the match whose
+operator run is longest (`OpsLongest v`: the version does not start with an operator character,
+or is the one character the run had to give back) … -/
+theorem matchPackageName_iff (s n o v p : Text) :
+    matchPackageName s = some (n, o, v, p) ↔ PkgMatch s n o v p ∧ OpsLongest v :=
+  VersionGrammar.matchPackageName_iff s n o v p
+
+/-- … whose operator run is at least as long as in any other match … -/
+theorem matchPackageName_longest {s n o v p n' o' v' p' : Text}
+    (h : matchPackageName s = some (n, o, v, p)) (h' : PkgMatch s n' o' v' p') :
+    o'.length ≤ o.length := VersionGrammar.matchPackageName_longest h h'
+
+/-- … and fails exactly when the expression does not match at all. -/
+theorem matchPackageName_none_iff (s : Text) :
+    matchPackageName s = none ↔ ¬ ∃ n o v p, PkgMatch s n o v p :=
+  VersionGrammar.matchPackageName_none_iff s
+
+/-- `ResolvePackageNameVersionPin` on every input: rewrite (`so:` rule), then the longest-run
+match decides the four fields; with no match the whole (rewritten) string is the name. -/
+theorem parseConstraint_spec (s : Text) :
+    (∀ n o v p, PkgMatch (soRewrite s) n o v p → OpsLongest v →
+      parseConstraint s = ⟨n, v, if o.isEmpty then .any else opOf o, p⟩) ∧
+    ((¬ ∃ n o v p, PkgMatch (soRewrite s) n o v p) →
+      parseConstraint s = ⟨soRewrite s, [], .any, []⟩) := by
+  constructor
+  · intro n o v p hm hl
+    exact parseConstraint_of_match rfl (matchPackageName_complete hm hl)
+  · intro h
+    have := (VersionGrammar.matchPackageName_none_iff _).mpr h
+    unfold parseConstraint
+    simp only [this]
 
 /-- the hypotheses of `constraint_split_op` are satisfiable by a non-trivial value -/
 example : parseConstraint "busybox>=1.36.1-r2@edge".toList =
